@@ -341,13 +341,13 @@ func (d *dumper) val(rv reflect.Value) any {
 	if rv.Type().Implements(tVariable) {
 		if rv.CanInterface() {
 			v := rv.Interface().(data.Variable)
-			return map[string]any{"var": fmt.Sprintf("%s#%d", v.GetName(), v.GetIndex())}
+			return map[string]any{"var": fmt.Sprintf("%s#%d:%s", v.GetName(), v.GetIndex(), typeText(v.GetType()))}
 		}
 		return map[string]any{"var": "?"}
 	}
 	if rv.Type().Implements(tTypes) {
 		if rv.CanInterface() {
-			return map[string]any{"types": rv.Interface().(data.Types).String()}
+			return map[string]any{"types": typeText(rv.Interface().(data.Types))}
 		}
 		return map[string]any{"types": "?"}
 	}
@@ -377,7 +377,7 @@ func (d *dumper) val(rv reflect.Value) any {
 					if _, isRef := v.(*node.VariableReference); isRef {
 						ref = "&" // LambdaExpression.Call binds by reference exactly for these
 					}
-					l = append(l, map[string]any{"var": fmt.Sprintf("%s%s#%d", ref, v.GetName(), v.GetIndex())})
+					l = append(l, map[string]any{"var": fmt.Sprintf("%s%s#%d:%s", ref, v.GetName(), v.GetIndex(), typeText(v.GetType()))})
 					continue
 				}
 			}
@@ -429,9 +429,21 @@ func (d *dumper) val(rv reflect.Value) any {
 	}
 }
 
-func dump(v any) any {
+// typeText: a declared type as its dynamic Go type plus its text (two kinds of type object that print
+// the same, or a variable that lost its type, must not compare equal)
+func typeText(t data.Types) string {
+	if t == nil || (reflect.ValueOf(t).Kind() == reflect.Ptr && reflect.ValueOf(t).IsNil()) {
+		return "nil"
+	}
+	return fmt.Sprintf("%T:%s", t, t.String())
+}
+
+// dump returns the generic image of v and whether the node budget was exhausted (a truncated image must not
+// be compared: two truncated trees would agree on their "too-large" leaves)
+func dump(v any) (any, bool) {
 	d := &dumper{seen: map[uintptr]int{}, budget: 400000}
-	return d.val(reflect.ValueOf(v))
+	r := d.val(reflect.ValueOf(v))
+	return r, d.budget < 0
 }
 
 // ------------------------------------------------------------------ struct mode
